@@ -32,8 +32,8 @@ CLAIMS = {
          "NOT covered: CLI flag parsing and file I/O, geomean rows, rendering; measurement values concrete; goroutines sequentialised"),
  "C15": ("partial: map iteration order and line permutation only. The pipeline of C14 is run twice in one symbolic path, the second time with every small map iterated in an arbitrary symbolically chosen order, and the CSV bytes must be identical; results are added in every permutation and each cell's sample and centre must be identical",
          "NOT covered and not claimable with this technique: goroutine interleavings, GOMAXPROCS, data races (the engine runs goroutines to completion at the spawn point; the Go memory model is not encoded)"),
- "C16": ("partial: the column-header tree only. Bounded symbolic execution of NewKeyHeader on keys projected from symbolic results: at every level the cells are adjacent non-empty runs that partition their parent's span, every column under a cell carries its value, adjacent cells differ, depth equals the number of fields",
-         "NOT covered: the fixed-width text layout (texttab) and text/CSV agreement"),
+ "C16": ("partial: the column-header tree and the fixed-width layout kernel. Bounded symbolic execution of NewKeyHeader on keys projected from symbolic results (cells are adjacent non-empty runs partitioning the parent span, values consistent, adjacent cells differ), and of texttab.Table.Format on two table shapes whose cell contents are symbolic (ASCII and two-byte runes): no truncation, no overlap, left-aligned columns start and right-aligned columns end at one character offset, the header stays within the columns it spans, no trailing blanks",
+         "NOT covered: larger table shapes, shrink columns, benchtab's ToText assembly, text/CSV agreement and number rendering"),
  "C17": ("partial: gating, direction, order, fence. Bounded symbolic execution of Collection.AddResults/Tables, Sort and Metrics.computeStats with symbolic measurement values (number parser stubbed), symbolic p/alpha through the public DeltaTest hook: delta shown iff no error and p < alpha, percentage formula, better-direction flag, note classes, first-appearance or stable sorted row order, retained values exactly those inside the 1.5-IQR fences",
          "NOT covered: mean of several values and min<=mean<=max (float chains time out), geomean, built-in tests' p-values, formatting; old values concrete"),
  "C18": ("partial: order independence, sample membership and the percentile kernel. Bounded symbolic execution of benchseries.Builder.Add/AllComparisonSeries on results whose experiment stamp, series stamp (two timestamp formats of one instant) and role are symbolic choices, added in every permutation with small maps iterated in arbitrary order under both duplicate policies; the percentile/median helpers on sorted symbolic float ratios (cvc5)",
